@@ -162,13 +162,15 @@ where
     {
       *ref_count -= 1;
       if *ref_count == 0 {
-        let subject = subject.clone();
         let connection = connection.take();
+        // close the inner subject before the state is released: a subscriber
+        // joining from now on must not slip into a subject that is about to
+        // be torn down under it
+        subject.clone().unsubscribe();
         drop(inner);
         if let Some(connection) = connection {
           connection.unsubscribe();
         }
-        subject.unsubscribe();
       }
     }
   }
